@@ -6,6 +6,10 @@ D1 every executing call in cli._run is dominated by every gate (CFG + guard domi
    (call-graph closure of every pre-gate call: constructors of the trace driver, the execution
    components, the Pipeline, run-space expansion, the dry-run printers),
    the missing-key gate compares the *untransformed* key set of the context the first run receives,
+   that one probed run stands for all: every run dictionary expand_run_space builds has a key set
+   that does not depend on per-run data (C17-D1-runs-share-key-shape),
+   the cap the expansion gate enforces is the configured number, 0 included: parser and the
+   --run-space-max-runs override hand it on unchanged (C17-D1-cap-value-reaches-gate),
 D2 exit-code table,
 D3 success iff all runs completed; stop at first failure,
 D4 the required-key set the missing-key gate relies on is order-sensitive (C02-D2 rule re-applied);
@@ -287,6 +291,8 @@ def run(repo: Repo, R: Report) -> None:
     finally:
         R.rule_prefix = ""
     validation_gate_rule(repo, R)
+    runs_share_key_shape_rule(repo, R, fn)
+    cap_value_rule(repo, R, fn)
 
 
 def _anc(n):
@@ -790,3 +796,614 @@ def _missing_role(tree: ast.AST, fn: ast.AST) -> Optional[str]:
             if any(isinstance(i, ast.If) and dotted_name(i.test) == cand.targets[0].id for i in walk_no_nested(fn)):
                 found = cand.targets[0].id
     return found
+
+
+# ---------------------------------------------------------------------------------------------
+# D1: one planned run stands for all of them in the missing-key gate -> all runs share one key set
+# ---------------------------------------------------------------------------------------------
+RUN_SPACE = "semantiva/execution/run_space.py"
+_LIST_GROW = {"append", "extend", "insert", "update", "setdefault", "add", "appendleft", "__setitem__"}
+_DICT_MUT = {"update", "setdefault", "pop", "popitem", "clear", "__setitem__", "__delitem__"}
+
+
+def _loads(e: Optional[ast.AST]) -> Set[str]:
+    """Names read by *e* as data (the plain name of a called function is not data)."""
+    if e is None:
+        return set()
+    skip = {id(c.func) for c in ast.walk(e) if isinstance(c, ast.Call) and isinstance(c.func, ast.Name)}
+    return {x.id for x in ast.walk(e) if isinstance(x, ast.Name) and id(x) not in skip}
+
+
+def _target_names(t: ast.AST) -> List[str]:
+    return [x.id for x in ast.walk(t) if isinstance(x, ast.Name)]
+
+
+def _bind(target: ast.AST, it: ast.AST) -> List[Tuple[List[str], ast.AST]]:
+    """(names, expression they take their values from) for `for target in it`: element-wise for zip(...),
+    the iterable for everything else."""
+    if isinstance(target, (ast.Tuple, ast.List)) and isinstance(it, ast.Call) and call_name(it) == "zip" and len(it.args) == len(target.elts) and not any(isinstance(a, ast.Starred) for a in it.args):
+        return [(_target_names(t), a) for t, a in zip(target.elts, it.args)]
+    return [(_target_names(target), it)]
+
+
+def _comps_with_elt(e: ast.AST) -> List[ast.AST]:
+    """Comprehensions (innermost first) that have *e* inside their element expression, up to the statement."""
+    out, child = [], e
+    for a in _anc(e):
+        if isinstance(a, (ast.ListComp, ast.GeneratorExp, ast.SetComp)) and any(child is x or any(child is y for y in ast.walk(x)) for x in [a.elt]):
+            out.append(a)
+        if isinstance(a, ast.stmt):
+            break
+        child = a
+    return out
+
+
+def _run_flow(fn: ast.AST, seeds: List[ast.AST]) -> Set[str]:
+    """Locals of *fn* whose value can become (part of) the seed expressions: backward data flow through
+    assignments, container growth, loop and comprehension targets."""
+    live: Set[str] = set()
+    for s in seeds:
+        live |= _loads(s)
+    changed = True
+    while changed:
+        changed = False
+        before = len(live)
+        for n in walk_no_nested(fn):
+            if isinstance(n, (ast.Assign, ast.AnnAssign, ast.AugAssign)) and getattr(n, "value", None) is not None:
+                tgts = n.targets if isinstance(n, ast.Assign) else [n.target]
+                for t in tgts:
+                    if isinstance(t, (ast.Tuple, ast.List)) and isinstance(n.value, (ast.Tuple, ast.List)) and len(t.elts) == len(n.value.elts):
+                        for te, ve in zip(t.elts, n.value.elts):
+                            if set(_target_names(te)) & live:
+                                live |= _loads(ve)
+                    elif isinstance(t, (ast.Subscript, ast.Attribute)):
+                        if _root_name(t) in live:
+                            live |= _loads(n.value)
+                    elif set(_target_names(t)) & live:
+                        live |= _loads(n.value)
+            elif isinstance(n, ast.Call) and isinstance(n.func, ast.Attribute) and n.func.attr in _LIST_GROW and _root_name(n.func.value) in live:
+                for a in list(n.args) + [k.value for k in n.keywords]:
+                    live |= _loads(a)
+            elif isinstance(n, (ast.For, ast.AsyncFor)):
+                for names, src in _bind(n.target, n.iter):
+                    if set(names) & live:
+                        live |= _loads(src)
+            elif isinstance(n, ast.comprehension):
+                for names, src in _bind(n.target, n.iter):
+                    if set(names) & live:
+                        live |= _loads(src)
+        changed = len(live) != before
+    return live
+
+
+def _variant_closure(scope_nodes: List[ast.AST], var: Set[str]) -> Set[str]:
+    """*var* plus the locals that are computed from them inside *scope_nodes* (loop bodies)."""
+    var = set(var)
+    changed = True
+    while changed:
+        before = len(var)
+        for body in scope_nodes:
+            for n in walk_no_nested(body):
+                if isinstance(n, (ast.Assign, ast.AnnAssign, ast.AugAssign)) and getattr(n, "value", None) is not None:
+                    tgts = n.targets if isinstance(n, ast.Assign) else [n.target]
+                    if _loads(n.value) & var:
+                        for t in tgts:
+                            if isinstance(t, ast.Name) or isinstance(t, (ast.Tuple, ast.List)):
+                                var |= set(_target_names(t))
+                elif isinstance(n, (ast.For, ast.AsyncFor)) and n is not body:
+                    for names, src in _bind(n.target, n.iter):
+                        if _loads(src) & var:
+                            var |= set(names)
+                elif isinstance(n, ast.NamedExpr) and _loads(n.value) & var:
+                    var.add(n.target.id)
+        changed = len(var) != before
+    return var
+
+
+def _variant_tests_in(expr: ast.AST, var: Set[str]) -> List[ast.AST]:
+    """Tests inside a mapping-building expression that decide *which keys* it has and that read per-run
+    data: filters of comprehensions, conditions choosing what is merged in (`**(a if t else b)`, dict(a if t else b))."""
+    out: List[ast.AST] = []
+
+    def keyed(e: ast.AST, v: Set[str]) -> None:
+        if isinstance(e, ast.IfExp):
+            if _loads(e.test) & v:
+                out.append(e.test)
+            keyed(e.body, v)
+            keyed(e.orelse, v)
+        elif isinstance(e, (ast.DictComp, ast.ListComp, ast.GeneratorExp, ast.SetComp)):
+            v = set(v)
+            for gen in e.generators:
+                for names, src in _bind(gen.target, gen.iter):
+                    if _loads(src) & v:
+                        v |= set(names)
+                for t in gen.ifs:
+                    if _loads(t) & v:
+                        out.append(t)
+        elif isinstance(e, ast.Dict):
+            for k, val in zip(e.keys, e.values):
+                if k is None:
+                    keyed(val, v)
+        elif isinstance(e, ast.Call) and call_name(e) in ("dict", "OrderedDict", "zip", "filter", "list", "tuple", "iter", "chain", "itertools.chain"):
+            if call_name(e) == "filter" and e.args and _loads(e) & v:
+                out.append(e.args[0])
+            for a in e.args:
+                keyed(a.value if isinstance(a, ast.Starred) else a, v)
+            for k in e.keywords:
+                if k.arg is None:
+                    keyed(k.value, v)
+        elif isinstance(e, ast.BinOp) and isinstance(e.op, ast.BitOr):
+            keyed(e.left, v)
+            keyed(e.right, v)
+
+    keyed(expr, var)
+    return out
+
+
+def runs_share_key_shape_rule(repo: Repo, R: Report, run_fn: ast.AST) -> None:
+    """`_run` decides "no required key is missing" on ONE planned run (`runs[0]`).  That stands for every
+    run only if all runs produced by `expand_run_space` carry the same keys: wherever a run dictionary
+    is built per run, no test that reads per-run data (the cell value, the row index) may decide whether
+    a key enters it.  Otherwise run 1 passes the gate and executes, and a later run fails inside a node."""
+    from ..engine import qualname_of
+
+    r = R.rule("C17-D1-runs-share-key-shape", "the missing-key gate probes one planned run as the representative of all (runs[<const>]): every run dictionary that expand_run_space produces is built with a key set that does not depend on per-run data - no filter / condition reading the row's values or index decides whether a key enters a run", 2)
+    nf = _run_normal_form(repo, run_fn)
+    probes_one = False
+    for src in (run_fn, nf):
+        for a in ast.walk(src):
+            if isinstance(a, ast.Assign) and isinstance(a.value, ast.Call) and call_attr(a.value) == "expand_run_space" and isinstance(a.targets[0], (ast.Tuple, ast.Name)):
+                runs_name = a.targets[0].elts[0].id if isinstance(a.targets[0], ast.Tuple) and isinstance(a.targets[0].elts[0], ast.Name) else a.targets[0].id if isinstance(a.targets[0], ast.Name) else None
+                if runs_name and any(isinstance(s, ast.Subscript) and dotted_name(s.value) == runs_name and isinstance(s.slice, ast.Constant) for s in ast.walk(src)):
+                    probes_one = True
+    if not probes_one:
+        R.ok(r, CLI, "_run", "the gate does not take one run as representative", "", run_fn.lineno)
+        R.ok(r, CLI, "_run", "(rule not needed)", "", run_fn.lineno)
+        return
+    mod = repo.module(RUN_SPACE)
+    top = repo.func(RUN_SPACE, "expand_run_space")
+    done: Set[Tuple[str, Tuple[str, ...]]] = set()
+
+    def same_module_target(call: ast.Call) -> Optional[ast.AST]:
+        for m, node in repo.resolve_call(mod, call):
+            if m.rel == RUN_SPACE and isinstance(node, FuncNode):
+                return node
+        return None
+
+    def analyse(fn: ast.AST, seeds: List[ast.AST], outer_var: Set[str], chain: Tuple[str, ...]) -> None:
+        key = (qualname_of(fn), tuple(sorted(outer_var)))
+        if key in done or len(chain) > 6:
+            return
+        done.add(key)
+        fname = qualname_of(fn)
+        live = _run_flow(fn, seeds)
+        # expressions that flow into a run / a list of runs
+        roots: List[ast.AST] = list(seeds)
+        for n in walk_no_nested(fn):
+            if isinstance(n, (ast.Assign, ast.AnnAssign)) and n.value is not None:
+                tgts = n.targets if isinstance(n, ast.Assign) else [n.target]
+                if any((isinstance(t, ast.Name) and t.id in live) or (isinstance(t, (ast.Subscript, ast.Attribute)) and _root_name(t) in live) or (isinstance(t, (ast.Tuple, ast.List)) and set(_target_names(t)) & live) for t in tgts):
+                    roots.append(n.value)
+            elif isinstance(n, ast.Call) and isinstance(n.func, ast.Attribute) and n.func.attr in _LIST_GROW and _root_name(n.func.value) in live:
+                roots.extend(n.args)
+        seen_e: Set[int] = set()
+        for root in roots:
+            for e in ast.walk(root):
+                if id(e) in seen_e:
+                    continue
+                is_dict = isinstance(e, (ast.Dict, ast.DictComp)) or (isinstance(e, ast.Call) and call_name(e) in ("dict", "OrderedDict"))
+                callee = same_module_target(e) if isinstance(e, ast.Call) and not is_dict else None
+                if not is_dict and callee is None:
+                    continue
+                seen_e.add(id(e))
+                comps = _comps_with_elt(e)
+                var: Set[str] = set(outer_var)
+                scopes: List[ast.AST] = []
+                local_var: Set[str] = set()
+                for c in reversed(comps):
+                    for gen in c.generators:
+                        local_var |= set(_target_names(gen.target))
+                st = stmt_of(e)
+                dname = None
+                if not comps:
+                    # statement level: `d = {...}` / `lst.append({...})` inside the loop(s) that produce the runs
+                    loops = [a for a in _anc(st) if isinstance(a, (ast.For, ast.AsyncFor, ast.While))]
+                    if isinstance(st, (ast.Assign, ast.AnnAssign)) and st.value is e:
+                        t0 = st.targets[0] if isinstance(st, ast.Assign) else st.target
+                        dname = t0.id if isinstance(t0, ast.Name) else None
+                    recv = None
+                    if loops:
+                        body_of = loops[0]
+                        for c in walk_no_nested(body_of):
+                            if isinstance(c, ast.Call) and isinstance(c.func, ast.Attribute) and c.func.attr in ("append", "insert", "add") and isinstance(c.func.value, ast.Name):
+                                if (dname and any(isinstance(a, ast.Name) and a.id == dname for a in c.args)) or any(a is e for a in c.args):
+                                    recv = c.func.value.id
+                    variant_loops = []
+                    if recv is not None:
+                        created = [n for n in walk_no_nested(fn) if isinstance(n, (ast.Assign, ast.AnnAssign)) and any(isinstance(t, ast.Name) and t.id == recv for t in (n.targets if isinstance(n, ast.Assign) else [n.target]))]
+                        for l in loops:
+                            if created and all(any(a is l for a in _anc(cr)) for cr in created):
+                                break  # the receiving list is created inside this loop: one list per iteration
+                            variant_loops.append(l)
+                    elif loops and any(isinstance(y, (ast.Yield, ast.YieldFrom)) and (any(x is e for x in ast.walk(y)) or (dname and dname in _loads(y))) for y in walk_no_nested(loops[0])):
+                        variant_loops = loops  # a generator of runs: every enclosing loop produces elements
+                    for l in variant_loops:
+                        if isinstance(l, (ast.For, ast.AsyncFor)):
+                            local_var |= set(_target_names(l.target))
+                        scopes.append(l)
+                var |= local_var
+                if not var:
+                    continue  # built once, not per run
+                var = _variant_closure((scopes or [fn]) if outer_var else scopes, var)
+                if callee is not None:
+                    params = [a.arg for a in callee.args.posonlyargs + callee.args.args]
+                    vparams = {params[i] for i, a in enumerate(e.args) if i < len(params) and not isinstance(a, ast.Starred) and _loads(a) & var}
+                    vparams |= {k.arg for k in e.keywords if k.arg and _loads(k.value) & var}
+                    rets = [x.value for x in walk_no_nested(callee) if isinstance(x, ast.Return) and x.value is not None]
+                    if vparams and rets:
+                        analyse(callee, rets, vparams, chain + (fname,))
+                    continue
+                bad: List[Tuple[ast.AST, str]] = []
+                for t in _variant_tests_in(e, var):
+                    bad.append((t, f"the filter / condition `{norm(t)[:70]}` inside the run dictionary `{norm(e)[:80]}` reads per-run data"))
+                if dname is not None and scopes:
+                    inner = scopes[0]
+                    for n in walk_no_nested(inner):
+                        mut = None
+                        if isinstance(n, ast.Call) and isinstance(n.func, ast.Attribute) and n.func.attr in _DICT_MUT and isinstance(n.func.value, ast.Name) and n.func.value.id == dname:
+                            mut = n
+                            for a in n.args[:1] if n.func.attr == "update" else []:
+                                for t in _variant_tests_in(a, var):
+                                    bad.append((t, f"the condition `{norm(t)[:70]}` chooses what `{norm(n)[:70]}` merges into the run"))
+                        elif isinstance(n, (ast.Assign, ast.AugAssign, ast.Delete)):
+                            tg = n.targets if isinstance(n, (ast.Assign, ast.Delete)) else [n.target]
+                            if any(isinstance(t, ast.Subscript) and isinstance(t.value, ast.Name) and t.value.id == dname for t in tg):
+                                mut = n
+                        if mut is None:
+                            continue
+                        mst = stmt_of(mut)
+                        child = mst
+                        for a in _anc(mst):
+                            if a is inner:
+                                break
+                            if isinstance(a, (ast.If, ast.While)) and _loads(a.test) & var and not _same_key_both_branches(a, mst, dname):
+                                bad.append((a.test, f"`{norm(mst)[:70]}` changes the keys of the run only when `{norm(a.test)[:70]}`, a test on per-run data"))
+                            if isinstance(a, (ast.For, ast.AsyncFor, ast.While)):
+                                # a variant `continue` / `break` of this inner loop skips the store for some runs
+                                for j in walk_no_nested(a):
+                                    if isinstance(j, (ast.Continue, ast.Break)) and next((x for x in _anc(j) if isinstance(x, (ast.For, ast.AsyncFor, ast.While))), None) is a:
+                                        for g in _anc(j):
+                                            if g is a:
+                                                break
+                                            if isinstance(g, ast.If) and _loads(g.test) & var:
+                                                bad.append((g.test, f"`{norm(mst)[:70]}` is skipped for some keys when `{norm(g.test)[:70]}`, a test on per-run data"))
+                            child = a
+                where = " <- ".join((fname,) + tuple(reversed(chain)))
+                if bad:
+                    seen_t: Set[int] = set()
+                    for t, why in bad:
+                        if id(t) in seen_t:
+                            continue
+                        seen_t.add(id(t))
+                        R.violation(r, RUN_SPACE, fname, norm(e)[:100], f"{why}: the planned runs no longer share one key set, but `_run` checks the required context keys against one run only (runs[0]) - a run that lacks the key is started after earlier runs already executed and wrote their outputs / traces, and fails in a node (exit 4) instead of being rejected up front (exit 3) [{where}]", getattr(t, "lineno", getattr(e, "lineno", 0)))
+                else:
+                    R.ok(r, RUN_SPACE, fname, norm(e)[:100], "", getattr(e, "lineno", 0))
+
+    rets = [x.value for x in walk_no_nested(top) if isinstance(x, ast.Return) and x.value is not None]
+    seeds = [v.elts[0] if isinstance(v, ast.Tuple) and v.elts else v for v in rets]
+    if not seeds:
+        raise AnalysisError("expand_run_space: no return value found")
+    analyse(top, seeds, set(), ())
+    # list producers called outside a per-run position (`context_runs = _expand_entries(...)`): their returned lists are lists of runs
+    todo = [top]
+    visited = {id(top)}
+    while todo:
+        f = todo.pop()
+        live = _run_flow(f, seeds if f is top else [x.value for x in walk_no_nested(f) if isinstance(x, ast.Return) and x.value is not None])
+        for n in walk_no_nested(f):
+            if isinstance(n, (ast.Assign, ast.AnnAssign)) and n.value is not None:
+                tgts = n.targets if isinstance(n, ast.Assign) else [n.target]
+                flat = [x for t in tgts for x in _target_names(t)]
+                if not (set(flat) & live):
+                    continue
+                vals = [n.value]
+            elif isinstance(n, ast.Call) and isinstance(n.func, ast.Attribute) and n.func.attr in _LIST_GROW and _root_name(n.func.value) in live:
+                vals = list(n.args)
+            elif isinstance(n, ast.Return) and n.value is not None and f is not top:
+                vals = [n.value]
+            else:
+                continue
+            for v in vals:
+                for c in ast.walk(v):
+                    if isinstance(c, ast.Call):
+                        callee = same_module_target(c)
+                        if callee is not None and id(callee) not in visited and not _comps_with_elt(c):
+                            visited.add(id(callee))
+                            crets = [x.value for x in walk_no_nested(callee) if isinstance(x, ast.Return) and x.value is not None]
+                            # positional narrowing: `a, b = f()` with f returning tuples
+                            if isinstance(n, ast.Assign) and isinstance(n.targets[0], ast.Tuple) and n.value is c and crets and all(isinstance(x, ast.Tuple) and len(x.elts) == len(n.targets[0].elts) for x in crets):
+                                idxs = [i for i, te in enumerate(n.targets[0].elts) if set(_target_names(te)) & live]
+                                crets = [x.elts[i] for x in crets for i in idxs]
+                            if crets:
+                                analyse(callee, crets, set(), (qualname_of(f),))
+                                todo.append(callee)
+
+
+# ---------------------------------------------------------------------------------------------
+# D1: the cap that the expansion gate enforces is the configured number (0 included)
+# ---------------------------------------------------------------------------------------------
+LOADER = "semantiva/configurations/load_pipeline_from_yaml.py"
+CAP_KEY = "max_runs"
+_VALUE_KEEPING_CALLS = {"int", "index", "operator.index"}
+_VALUE_CHANGING_CALLS = {"min", "max", "abs", "round", "bool", "pow", "divmod", "len"}
+
+
+def _presence_test(t: ast.AST) -> bool:
+    """A test that asks whether a value was supplied at all (`x is None`, `"k" in m`, isinstance), not what it is."""
+    if isinstance(t, ast.UnaryOp) and isinstance(t.op, ast.Not):
+        return _presence_test(t.operand)
+    if isinstance(t, ast.BoolOp):
+        return all(_presence_test(v) for v in t.values)
+    if isinstance(t, ast.Compare) and len(t.ops) == 1:
+        op, l, r = t.ops[0], t.left, t.comparators[0]
+        if isinstance(op, (ast.Is, ast.IsNot)) and any(isinstance(x, ast.Constant) and x.value is None for x in (l, r)):
+            return True
+        if isinstance(op, (ast.In, ast.NotIn)) and isinstance(l, ast.Constant) and isinstance(l.value, str):
+            return True
+        if isinstance(op, (ast.Eq, ast.NotEq)) and any(isinstance(x, ast.Constant) and x.value is None for x in (l, r)):
+            return True
+        return False
+    if isinstance(t, ast.Call) and call_name(t) in ("isinstance", "hasattr"):
+        return True
+    return False
+
+
+class _CapFlow:
+    """Does an expression hand on the supplied cap unchanged for every integer (0 included)?
+    kind: 'src' (the supplied value, possibly through int()), 'default' (a value that does not depend on
+    it), 'bad' (the supplied value is replaced / changed depending on what it is), 'unknown'."""
+
+    def __init__(self, repo: Repo, mod, fn: ast.AST, is_source) -> None:
+        self.repo, self.mod, self.fn, self.is_source = repo, mod, fn, is_source
+        self.why: List[Tuple[ast.AST, str]] = []
+
+    def mentions_src(self, e: ast.AST, env: Dict[str, str], fn: ast.AST) -> bool:
+        for x in ast.walk(e):
+            if self.is_source(x):
+                return True
+            if isinstance(x, ast.Name) and (env.get(x.id) == "src" or (x.id not in env and self._name_kind(x.id, env, fn, 0, quiet=True) == "src")):
+                return True
+        return False
+
+    def _name_kind(self, name: str, env: Dict[str, str], fn: ast.AST, depth: int, quiet: bool = False) -> str:
+        if name in env:
+            return env[name]
+        if depth > 6:
+            return "unknown"
+        defs = [n for n in walk_no_nested(fn) if isinstance(n, (ast.Assign, ast.AnnAssign)) and n.value is not None and any(isinstance(t, ast.Name) and t.id == name for t in (n.targets if isinstance(n, ast.Assign) else [n.target]))]
+        if not defs:
+            return "default" if name not in {a.arg for a in fn.args.posonlyargs + fn.args.args + fn.args.kwonlyargs} else "unknown"
+        env = dict(env)
+        env[name] = "default"  # cut cycles (x = x or d handled below through the BoolOp itself)
+        kinds = []
+        for d in defs:
+            env2 = dict(env)
+            # `x = f(x)`: the right-hand x is the earlier definition
+            earlier = [o for o in defs if o is not d and o.lineno < d.lineno]
+            if name in _loads(d.value) and earlier:
+                ks = [self.kind(o.value, env, fn, depth + 1, quiet) for o in earlier]
+                env2[name] = "bad" if "bad" in ks else "src" if "src" in ks else "unknown" if "unknown" in ks else "default"
+            k = self.kind(d.value, env2, fn, depth + 1, quiet)
+            kinds.append(k)
+            # a re-definition guarded by a test on the value itself
+            if k != "bad" and len(defs) > 1:
+                for a in _anc(d):
+                    if a is fn:
+                        break
+                    if isinstance(a, ast.If) and not _presence_test(a.test):
+                        env3 = dict(env)
+                        others = [self.kind(o.value, env, fn, depth + 1, True) for o in defs if o is not d]
+                        env3[name] = "src" if "src" in others else "default"
+                        if self.mentions_src(a.test, env3, fn):
+                            if not quiet:
+                                self.why.append((a.test, f"`{norm(d)[:60]}` replaces the supplied value when `{norm(a.test)[:60]}` - a test on the value itself, not on its presence"))
+                            kinds.append("bad")
+        return "bad" if "bad" in kinds else "src" if "src" in kinds else "unknown" if "unknown" in kinds else "default"
+
+    def kind(self, e: Optional[ast.AST], env: Dict[str, str], fn: ast.AST, depth: int = 0, quiet: bool = False) -> str:
+        def note(node, text):
+            if not quiet:
+                self.why.append((node, text))
+
+        if e is None or depth > 8:
+            return "unknown"
+        if self.is_source(e):
+            # m.get(key, d) / m.get(key) / m[key] / m.pop(key, d)
+            return "src"
+        if isinstance(e, ast.Constant):
+            return "default"
+        if isinstance(e, ast.Name):
+            return self._name_kind(e.id, env, fn, depth, quiet)
+        if isinstance(e, ast.Attribute):
+            return "default" if not self.mentions_src(e, env, fn) else "unknown"
+        if isinstance(e, ast.NamedExpr):
+            return self.kind(e.value, env, fn, depth + 1, quiet)
+        if isinstance(e, ast.IfExp):
+            kb, ko = self.kind(e.body, env, fn, depth + 1, quiet), self.kind(e.orelse, env, fn, depth + 1, quiet)
+            if "bad" in (kb, ko):
+                return "bad"
+            if not _presence_test(e.test) and self.mentions_src(e.test, env, fn) and "src" in (kb, ko):
+                note(e.test, f"`{norm(e)[:80]}` keeps the supplied value only when `{norm(e.test)[:50]}` - a test on the value itself (0 is falsy), not on its presence")
+                return "bad"
+            return "src" if "src" in (kb, ko) else "unknown" if "unknown" in (kb, ko) else "default"
+        if isinstance(e, ast.BoolOp):
+            ks = [self.kind(v, env, fn, depth + 1, quiet) for v in e.values]
+            if "bad" in ks:
+                return "bad"
+            if "src" in ks[:-1]:
+                op = "or" if isinstance(e.op, ast.Or) else "and"
+                note(e, f"`{norm(e)[:80]}`: `{op}` decides on the truthiness of the supplied value, so a supplied 0 is replaced by the other operand")
+                return "bad"
+            return "src" if "src" in ks else "unknown" if "unknown" in ks else "default"
+        if isinstance(e, (ast.BinOp, ast.UnaryOp)):
+            if self.mentions_src(e, env, fn):
+                note(e, f"`{norm(e)[:80]}` computes a different number from the supplied value")
+                return "bad"
+            return "default"
+        if isinstance(e, ast.Call):
+            cn = call_name(e) or ""
+            if cn in _VALUE_KEEPING_CALLS and len(e.args) == 1 and not e.keywords:
+                return self.kind(e.args[0], env, fn, depth + 1, quiet)
+            if cn in _VALUE_CHANGING_CALLS and self.mentions_src(e, env, fn):
+                note(e, f"`{norm(e)[:80]}` computes a different number from the supplied value")
+                return "bad"
+            if not self.mentions_src(e, env, fn):
+                return "default"
+            # a helper of the repository: follow the value through its parameters
+            for m, node in self.repo.resolve_call(self.mod, e):
+                if isinstance(node, FuncNode):
+                    params = [a.arg for a in node.args.posonlyargs + node.args.args]
+                    if params and params[0] in ("self", "cls") and isinstance(e.func, ast.Attribute):
+                        params = params[1:]
+                    env2: Dict[str, str] = {}
+                    for i, a in enumerate(e.args):
+                        if i < len(params):
+                            env2[params[i]] = self.kind(a, env, fn, depth + 1, quiet)
+                    for k in e.keywords:
+                        if k.arg:
+                            env2[k.arg] = self.kind(k.value, env, fn, depth + 1, quiet)
+                    for p in params + [a.arg for a in node.args.kwonlyargs]:
+                        env2.setdefault(p, "default")
+                    rets = [x.value for x in walk_no_nested(node) if isinstance(x, ast.Return) and x.value is not None]
+                    ks = [self.kind(rv, env2, node, depth + 1, quiet) for rv in rets]
+                    if ks:
+                        return "bad" if "bad" in ks else "src" if "src" in ks else "unknown" if "unknown" in ks else "default"
+            return "unknown"
+        return "unknown"
+
+
+def _const_key(e: ast.AST, key: str) -> bool:
+    return isinstance(e, ast.Constant) and e.value == key
+
+
+def _cap_entry(e: ast.AST) -> bool:
+    """`<m>.get("max_runs"[, d])`, `<m>.pop("max_runs"[, d])`, `<m>["max_runs"]`."""
+    if isinstance(e, ast.Call) and isinstance(e.func, ast.Attribute) and e.func.attr in ("get", "pop") and e.args and _const_key(e.args[0], CAP_KEY):
+        return True
+    return isinstance(e, ast.Subscript) and isinstance(e.ctx, ast.Load) and _const_key(e.slice, CAP_KEY)
+
+
+def cap_value_rule(repo: Repo, R: Report, run_fn: ast.AST) -> None:
+    """`expand_run_space` rejects a run space that is larger than `spec.max_runs`; the CLI turns that into
+    EXIT_CONFIG_ERROR before anything runs.  The number compared there has to be the one the user
+    configured - for every integer, 0 ("allow no run") included: the parser stores int(<the max_runs
+    entry>) and may fall back to a default only when the entry is absent (a presence test), and the CLI
+    stores --run-space-max-runs whenever the flag was given."""
+    from ..engine import qualname_of
+    from ..normal import nfunc
+
+    r = R.rule("C17-D1-cap-value-reaches-gate", "the run-space cap the expansion gate enforces is the configured number for every integer (0 included): the parser stores int(<the 'max_runs' entry>) and replaces it by a default only on absence (is None / key not present), never on its truthiness or magnitude; _run stores --run-space-max-runs whenever the flag is given (is not None) and unchanged", 2)
+    mod = repo.module(LOADER)
+    sites = 0
+    for qual, node in list(mod.defs.items()):
+        if not isinstance(node, FuncNode):
+            continue
+        raw_hit = any((isinstance(n, ast.Attribute) and n.attr == CAP_KEY and isinstance(n.ctx, ast.Store)) or (isinstance(n, ast.keyword) and n.arg == CAP_KEY) for n in walk_no_nested(node))
+        if not raw_hit:
+            continue
+        try:
+            nf = nfunc(repo, LOADER, qual, consts=False)
+        except AnalysisError:
+            nf = node
+        stores: List[Tuple[ast.AST, ast.AST]] = []
+        for n in walk_no_nested(nf):
+            if isinstance(n, (ast.Assign, ast.AnnAssign)) and n.value is not None:
+                tgts = n.targets if isinstance(n, ast.Assign) else [n.target]
+                if any(isinstance(t, ast.Attribute) and t.attr == CAP_KEY for t in tgts):
+                    stores.append((n, n.value))
+            elif isinstance(n, ast.Call):
+                for k in n.keywords:
+                    if k.arg == CAP_KEY and (call_name(n) or "").split(".")[-1][:1].isupper():
+                        stores.append((n, k.value))
+        for st, val in stores:
+            cf = _CapFlow(repo, mod, nf, _cap_entry)
+            k = cf.kind(val, {}, nf)
+            if k == "default" and any(isinstance(a, ast.ExceptHandler) for a in _anc(st)):
+                continue  # fallback of a failed conversion: not the path of a supplied integer
+            sites += 1
+            if k == "unknown":
+                raise AnalysisError(f"{qual}: how `{norm(st)[:80]}` obtains the cap from the '{CAP_KEY}' entry is not recognised")
+            if k == "bad":
+                node_, why = cf.why[0] if cf.why else (st, "the supplied value is changed")
+                R.violation(r, LOADER, qual, norm(st)[:100], f"{why}: the cap that expand_run_space compares the planned number of runs with is then not the configured one (a configured 0 / small cap is silently widened), RunSpaceMaxRunsExceededError is not raised and `semantiva run` executes a run space it had to reject with EXIT_CONFIG_ERROR", getattr(node_, "lineno", getattr(st, "lineno", 0)))
+            elif k == "default":
+                R.violation(r, LOADER, qual, norm(st)[:100], f"the stored cap does not come from the '{CAP_KEY}' entry of the run_space block: the configured cap is ignored and a run space that exceeds it is executed", getattr(st, "lineno", 0))
+            else:
+                R.ok(r, LOADER, qual, norm(st)[:100], "", getattr(st, "lineno", 0))
+    if sites == 0:
+        raise AnalysisError(f"{LOADER}: no statement stores the run-space cap ('{CAP_KEY}')")
+    # ---- CLI override
+    cli_mod = repo.module(CLI)
+    n_cli = 0
+    for n in walk_no_nested(run_fn):
+        if not (isinstance(n, ast.Assign) and len(n.targets) == 1 and isinstance(n.targets[0], ast.Subscript) and _const_key(n.targets[0].slice, CAP_KEY)):
+            continue
+        flags = [dotted_name(x) for x in ast.walk(n.value) if isinstance(x, ast.Attribute) and isinstance(x.value, ast.Name) and x.value.id == "args"]
+        if not flags:
+            continue
+        flag = flags[0]
+        n_cli += 1
+        cf = _CapFlow(repo, cli_mod, run_fn, lambda e, flag=flag: dotted_name(e) == flag)
+        k = cf.kind(n.value, {}, run_fn)
+        if k == "bad":
+            node_, why = cf.why[0] if cf.why else (n, "the flag value is changed")
+            R.violation(r, CLI, "_run", norm(n)[:100], f"{why}: the cap given with the flag is not the one the expansion gate enforces, and a run space that exceeds it is executed", n.lineno)
+            continue
+        # guards: stored whenever the flag was given
+        bad_guard = None
+        child: ast.AST = n
+        for a in _anc(n):
+            if a is run_fn:
+                break
+            if isinstance(a, ast.If) and flag in {dotted_name(x) for x in ast.walk(a.test) if isinstance(x, ast.Attribute)}:
+                in_body = any(child is s for s in a.body)
+                if not _given_implies(a.test, flag, in_body):
+                    bad_guard = a
+            child = a
+        if bad_guard is not None:
+            R.violation(r, CLI, "_run", norm(n)[:100], f"the flag value is stored only when `{norm(bad_guard.test)[:70]}`, which is not 'the flag was given' (`{flag} is not None`): a given `0` (or another value the test rejects) is dropped, the cap of the file / the default stays in force and a run space the user capped is executed", bad_guard.lineno)
+        else:
+            R.ok(r, CLI, "_run", norm(n)[:100], "", n.lineno)
+    if n_cli == 0:
+        raise AnalysisError("_run: the statement that stores --run-space-max-runs into the run_space section was not found")
+
+
+def _given_implies(test: ast.AST, flag: str, want: bool) -> bool:
+    """Does `<flag> is not None` imply that *test* evaluates to *want*?"""
+    if isinstance(test, ast.UnaryOp) and isinstance(test.op, ast.Not):
+        return _given_implies(test.operand, flag, not want)
+    if isinstance(test, ast.Compare) and len(test.ops) == 1 and dotted_name(test.left) == flag and isinstance(test.comparators[0], ast.Constant) and test.comparators[0].value is None:
+        if isinstance(test.ops[0], (ast.IsNot, ast.NotEq)):
+            return want is True
+        if isinstance(test.ops[0], (ast.Is, ast.Eq)):
+            return want is False
+        return False
+    if isinstance(test, ast.BoolOp):
+        if isinstance(test.op, ast.Or):
+            return any(_given_implies(v, flag, True) for v in test.values) if want else all(_given_implies(v, flag, False) for v in test.values)
+        return all(_given_implies(v, flag, True) for v in test.values) if want else any(_given_implies(v, flag, False) for v in test.values)
+    return False
+
+
+def _same_key_both_branches(if_node: ast.AST, store_stmt: ast.AST, dname: str) -> bool:
+    """`if t: d[k] = a  else: d[k] = b` - the test chooses the value, not whether the key is present."""
+    if not isinstance(if_node, ast.If) or not if_node.orelse:
+        return False
+    if not (isinstance(store_stmt, ast.Assign) and len(store_stmt.targets) == 1 and isinstance(store_stmt.targets[0], ast.Subscript)):
+        return False
+    key = ast.unparse(store_stmt.targets[0].slice)
+
+    def stores(body: List[ast.stmt]) -> bool:
+        return any(isinstance(s, ast.Assign) and len(s.targets) == 1 and isinstance(s.targets[0], ast.Subscript) and isinstance(s.targets[0].value, ast.Name) and s.targets[0].value.id == dname and ast.unparse(s.targets[0].slice) == key for s in body)
+
+    return stores(if_node.body) and stores(if_node.orelse)
